@@ -244,6 +244,8 @@ class ConcreteCtx(BaseCtx):
         v = d.const_value()
         if v == 0:
             return True, None
+        if rtol is None:
+            rtol = 1e-9  # native floats (mean, division): rounding is outside every claim; integer results differ by >= 1
         if rtol is not None:
             s = abs(scale.const_value()) if scale is not None and scale.is_const() else Fraction(0)
             if abs(v) <= Fraction(rtol) * max(s, Fraction(1)):
